@@ -28,7 +28,7 @@ func init() {
 		// generous internal deadline: the run takes 1-2 minutes on an idle machine and several times that next to other jobs
 		QuickBudget: 900,
 		Rule: "G1 capture/shadowing: all combinations of {assignment before definition, between definition and call, after the first call} x 12 body shapes (read, :=, +=, derived local, inner closure created before a local reassignment, inner assignment, closure returned and called later, sibling closures sharing a frame, two-variable shadowing, closure over a parameter, nested definition scopes) x wrapper nesting 0..2; " +
-			"G17 parameters are bound per call, for every kind of expression: 101 expression templates over the parameters (literals with computed parts, expansions, chains with chain arguments, calls with keyword expansion, indexing and slicing, conditionals, interpolation, ranges, function / method / iterator literals called at once, try chains; 5 parameter signatures) x every sequence of 2 (thorough 3) argument tuples out of 4, each call compared with a function literal written for that one call; " +
+			"G17 parameters are bound per call, for every kind of expression: 120 expression templates over the parameters (literals with computed parts, expansions, chains with chain arguments, calls with keyword expansion, indexing and slicing, conditionals, interpolation, ranges, function / method / iterator literals called at once, try chains; 5 parameter signatures) x every sequence of 2 (thorough 3) argument tuples out of 4, each call compared with a function literal written for that one call; " +
 			"G16 parameters that receive nothing: 7 call shapes (keyword left out, nested literals with the same keyword, method, iterator, positional left out, chain block, variable assigned later) x 4 names (incl. names of built-in top-level functions) x {no, int, nil, function} variable of that name visible from the defining scope x nesting 0..1; " +
 			"G15 rebinding to the same object: 13 values x 12 ways of binding a name again in an inner scope to the object (or an equal cached value) the enclosing variable of that name holds x 2 later reassignments of the enclosing variable x nesting 0..1, a closure made in the inner scope read before and after the reassignment; " +
 			"G2 binding: parameter lists {0..3 positional} x {0..2 keyword} x every argument list of length <=5 (thorough 6) over {positionals, k:, j:, unknown z:, *[0..2 elements], **{k}, **{j,k}, **{w,b}; up to two ** with disjoint names} respecting the grammar, probing parameters and \\ \\N \\0 \\name \\_; " +
@@ -885,12 +885,16 @@ var g17sigs = map[string]g17sig{
 var g17templates = map[string][]string{
 	"io": {"{x: pi, **po}", "{**po}", "{\"k#{pi}\": po}", "%{pi: po}", "%{'z: pi, **po}", "po.keys(private?: true)", "po.bear({n: pi}).n", "[pi, po]", "kw(**po)", "kw(x: pi, **po)", "po@{|k, v| [k, v, pi]}",
 		"[['w, pi]]@({**po}){|p| p}", "[pi]$({**po}){|acc, x| acc}", "po == {a: pi}", "(pi if po else -pi)", "po['a]", "\"#{pi}:#{po}\"", "(po || pi)", "(po && pi)", "!po", "po.try.a.or(pi)", "{**po, **{a: pi}}", "{a: pi, **po}.a",
-		"{|| [pi, po]}()", "m{[self, pi, po]}(0)", "<{|| yield [pi, po]}>.new.next", "po.{|x| [x, pi]}", "[po]@{|x| x.keys}", "{p: po, i: pi}.p", "(pi:pi + 3).A + [po]", "po.which('a) == po", "pi.try.{|x| x + po.a}.A"},
+		"{|| [pi, po]}()", "m{[self, pi, po]}(0)", "<{|| yield [pi, po]}>.new.next", "po.{|x| [x, pi]}", "[po]@{|x| x.keys}", "{p: po, i: pi}.p", "(pi:pi + 3).A + [po]", "po.which('a) == po", "pi.try.{|x| x + po.a}.A",
+		// the written parts are constants, only the expansion varies
+		"{k: 0, **po}", "%{'z: 0, **po}", "[['w, 0]]@({k: 0, **po}){|p| p}", "[0]$({k: 0, **po}){|acc, x| acc}", "kw(x: 0, **po)", "{k: 0, **po}.keys(private?: true)", "[0, po][1]", "{k: [0], in: {**po}}"},
 	"il": {"[pi, *pl]", "[*pl, pi]", "[*pl, *pl]", "pl[pi]", "pl[pi:]", "pl[:pi]", "pl[::pi]", "(pi:pl.len).A", "pl@{|x| [x, pi]}", "pl$([pi]){|acc, x| acc + [x]}", "[pi]@([*pl]){|x| x}", "pos(*pl)", "pos(pi, *pl)", "pl + [pi]", "pl * pi",
 		"pl.len + pi", "pl&@{|x| x}", "pl~@{|x| x}", "pl=@{|x| x}", "<{|n| yield n if n < pi; recur(n + 1)}>.new(0).A", "<{|n: pi| yield n}>.new.next", "{|x: pi| [x, pl]}()", "m{|y: pl| [self, y]}(pi)", "pl.{|a, b| [a, b]}", "pl@{|a, b| [a, b]}",
-		"[pl, pl][pi]", "pl == [pi]", "\"#{pl}#{pi}\"", "pl.try.at([pi]).A", "{v: pl}.v[pi]", "[pi] if pl else pl"},
+		"[pl, pl][pi]", "pl == [pi]", "\"#{pl}#{pi}\"", "pl.try.at([pi]).A", "{v: pl}.v[pi]", "[pi] if pl else pl",
+		"[0, *pl]", "[*pl, 0]", "[0]@([9, *pl]){|x| x}", "pos(0, *pl)", "[1, 2]$([0, *pl]){|acc, x| acc + [x]}", "[[0], [*pl]]"},
 	"is": {"\"a#{pi}b#{ps}\"", "ps + pi.S", "ps * pi", "ps[pi]", "ps[:pi]", "%{ps: pi}", "{\"#{ps}\": pi}.keys(private?: true)", "ps.sym?", "ps == \"x\"", "ps.len + pi", "[ps, *ps.A]", "ps@{|c| [c, pi]}", "{^ps: pi}.keys(private?: true)", "ps.try.uc.A", "(ps if ps else pi)", "ps.{|x| x * pi}"},
-	"im": {"%{**pm}", "%{pi: 0, **pm}", "pm[pi]", "pm.keys", "pm@{|k, v| [k, v, pi]}", "[[pi, pi]]@(%{**pm}){|p| p}", "pm == %{1: pi}", "%{**pm, **pm}.len", "pm.len + pi", "[pm, pi]", "\"#{pm}\""},
+	"im": {"%{**pm}", "%{pi: 0, **pm}", "pm[pi]", "pm.keys", "pm@{|k, v| [k, v, pi]}", "[[pi, pi]]@(%{**pm}){|p| p}", "pm == %{1: pi}", "%{**pm, **pm}.len", "pm.len + pi", "[pm, pi]", "\"#{pm}\"",
+		"%{'z: 0, **pm}", "%{1: 2, \"s\": 3, **pm}", "[[5, 6]]@(%{'z: 0, **pm}){|p| p}", "%{'z: 0, **pm}.keys", "[%{0: 0, **pm}]"},
 	"if": {"pf(pi)", "pi.^pf", "[pi, pi]@^pf", "[pi]@{|x| pf(x)}", "{|g: pf| g(pi)}()", "pi.try.{|x| pf(x)}.A", "[1, 2]$(pi){|acc, x| pf(acc)}", "pf.call(pi)", "{f: pf}['f](pi)", "m{pf(self)}(pi)", "pf.{|h| h(pi)}"},
 }
 
